@@ -6,7 +6,7 @@ out=${1:-/verif/work/mutants_final.txt}
 [ -n "$RESUME" ] || : > "$out"
 for d in /verif/seeded/C*-*; do
   id=$(basename "$d"); prop=${id%%-*}; mi=${id##*-}
-  tag="$prop/m${mi:1}"; [ "${mi:0:1}" = "b" ] && tag="B$prop/m${mi:1}"; [ "${mi:0:1}" = "c" ] && tag="C$prop/m${mi:1}"; [ "${mi:0:1}" = "d" ] && tag="D$prop/m${mi:1}"
+  tag="$prop/m${mi:1}"; [ "${mi:0:1}" = "b" ] && tag="B$prop/m${mi:1}"; [ "${mi:0:1}" = "c" ] && tag="C$prop/m${mi:1}"; [ "${mi:0:1}" = "d" ] && tag="D$prop/m${mi:1}"; [ "${mi:0:1}" = "e" ] && tag="E$prop/m${mi:1}"
   also=""; [ -f "$d/also.txt" ] && also=$(cat "$d/also.txt")
   if [ -n "$RESUME" ] && grep -q "^### $tag\$" "$out"; then continue; fi
   echo "### $tag" >> "$out"
